@@ -18,11 +18,11 @@ type histOp struct {
 	Pre   int          `json:"prefilled"` // number of junk paths already in the solution argument
 }
 type histCase struct {
-	Engine string   `json:"engine"` // 64 | D | offset
-	Ops    []histOp `json:"ops"`
+	Engine string    `json:"engine"` // 64 | D | offset
+	Ops    []histOp  `json:"ops"`
 	Deltas []float64 `json:"deltas,omitempty"`
-	JT     int      `json:"join_type"`
-	ET     int      `json:"end_type"`
+	JT     int       `json:"join_type"`
+	ET     int       `json:"end_type"`
 }
 
 func junk(n int) clip.Paths64 {
@@ -246,12 +246,12 @@ func c12Immutable(r *Rng) (ok bool, detail string) {
 	a0, b0 := clonePaths(a), clonePaths(b)
 	rect := clip.NewRect64(10, 10, 40, 40)
 	calls := map[string]func(){
-		"BooleanOpPaths64": func() { clip.BooleanOpPaths64(clip.ClipType(r.Range(1, 4)), a, b, clip.FillRule(r.Intn(4))) },
-		"BooleanOpPolyTree64": func() { clip.BooleanOpPolyTree64(clip.Union, a, b, clip.NonZero) },
-		"InflatePaths64": func() { clip.InflatePaths64(a, 5, clip.JoinType(r.Intn(4)), clip.EndType(r.Intn(5))) },
+		"BooleanOpPaths64":     func() { clip.BooleanOpPaths64(clip.ClipType(r.Range(1, 4)), a, b, clip.FillRule(r.Intn(4))) },
+		"BooleanOpPolyTree64":  func() { clip.BooleanOpPolyTree64(clip.Union, a, b, clip.NonZero) },
+		"InflatePaths64":       func() { clip.InflatePaths64(a, 5, clip.JoinType(r.Intn(4)), clip.EndType(r.Intn(5))) },
 		"InflatePaths64-small": func() { clip.InflatePaths64(a, 0.2, clip.Miter, clip.Polygon) },
-		"MinkowskiSum64": func() { clip.MinkowskiSum64(a[0], b[0], true) },
-		"RectClipPaths64": func() { clip.RectClipPaths64(rect, a) },
+		"MinkowskiSum64":       func() { clip.MinkowskiSum64(a[0], b[0], true) },
+		"RectClipPaths64":      func() { clip.RectClipPaths64(rect, a) },
 		"RectClipLinesPaths64": func() { clip.RectClipLinesPaths64(rect, a) },
 		"TrimCollinear64": func() {
 			for _, p := range a {
@@ -271,7 +271,7 @@ func c12Immutable(r *Rng) (ok bool, detail string) {
 			clip.Path2ContainsPath1(a[0], b[0])
 		},
 		"TranslatePaths64": func() { clip.TranslatePaths64(a, 3, 4) },
-		"ReversePath": func() { clip.ReversePath(a[0]) },
+		"ReversePath":      func() { clip.ReversePath(a[0]) },
 	}
 	for name, f := range calls {
 		if fault := safeCall(f); fault != "" {
